@@ -44,7 +44,7 @@ func ruleOverflowGuards(c *Ctx) {
 	var fns []*ssa.Function
 	var visit func(f *ssa.Function)
 	visit = func(f *ssa.Function) {
-		if f == nil || seen[f] || f.Blocks == nil || fnPkgPath(f) != pkgRedis || fullFuncName(f) == nExecuteCmd {
+		if f == nil || seen[f] || f.Blocks == nil || fnPkgPath(f) != pkgRedis || c.P.isDispatcher(f) {
 			return
 		}
 		seen[f] = true
